@@ -157,10 +157,16 @@ class MiniInterp:
                     if d is None:
                         raise Unknown(f"missing argument {p} of {fi.local}")
                     env[p] = self.ev(d, {}, fi)
+            is_gen = any(isinstance(x, (ast.Yield, ast.YieldFrom)) for x in fi.walk())
+            if is_gen:
+                env["__yield__"] = []
             try:
                 self.block(fi.node.body, env, fi)
             except _Ret as r:
-                return r.v
+                if not is_gen:
+                    return r.v
+            if is_gen:
+                return _Iter(env["__yield__"])     # evaluated eagerly: finite inputs only
             return None
         finally:
             self.depth -= 1
@@ -500,6 +506,16 @@ class MiniInterp:
             v = self.ev(n.value, env, fi)
             env[n.target.id] = v
             return v
+        if isinstance(n, ast.Yield):
+            if "__yield__" not in env:
+                raise Unknown("yield outside an interpreted generator")
+            env["__yield__"].append(self.ev(n.value, env, fi) if n.value is not None else None)
+            return None
+        if isinstance(n, ast.YieldFrom):
+            if "__yield__" not in env:
+                raise Unknown("yield outside an interpreted generator")
+            env["__yield__"].extend(self.iterate(self.ev(n.value, env, fi)))
+            return None
         if isinstance(n, ast.Starred):
             raise Unknown("starred expression")
         raise Unknown(f"expression {type(n).__name__}")
